@@ -199,6 +199,38 @@ example :
     (getTx N 9, getTx N 7, getTx N 8) = (.confirmed 4 0, .confirmed 5 0, .notFound) ∧
     (N.rcpt 4 1, N.rcpt 5 2, N.rcpt 2 1, N.rcpt 3 2) = (true, true, false, false) := by decide
 
+/-- An execution that satisfies `ExecLaw` and is not trivial (test of satisfiability): transaction hashes are consumed in
+order — the state root `r` has executed the hashes `0 … r-1`, a block executes iff it is empty or carries exactly the
+next hash. -/
+def seqExec (r : Nat) (b : Block) : Option Nat :=
+  if b.txs = [r] then some (r + 1) else if b.txs = [] then some r else none
+
+example : ExecLaw seqExec List.range := by
+  refine ⟨?_, ?_, ?_⟩
+  · intro r b r' h t ht
+    unfold seqExec at h
+    split at h
+    · next hb => rw [hb] at ht; simp at ht; subst ht; simp
+    · split at h
+      · next hb => rw [hb] at ht; cases ht
+      · cases h
+  · intro r b r' h
+    unfold seqExec at h
+    split at h
+    · next hb => rw [hb]; simp
+    · split at h
+      · next hb => rw [hb]; simp
+      · cases h
+  · intro r b r' h t ht
+    unfold seqExec at h
+    split at h
+    · next hb =>
+      injection h with h; subst h
+      rw [hb] at ht; simp at ht ⊢; omega
+    · split at h
+      · next hb => injection h with h; subst h; rw [hb] at ht; simpa using ht
+      · cases h
+
 /-- **The honesty hypothesis cannot be dropped** (DESIGN §5 lead 5; test on sample values). `F` carries the identifier
 of `A1` but another parent and number. It is parked as an orphan before `A1` arrives; `A1` and `A2` are connected; then
 `F`'s claimed parent `Q` arrives on a side branch and the parked `F` is stored under `A1`'s identifier: the height index
